@@ -128,7 +128,7 @@ class TlcResult:
                    and "Error:" not in out)
         self.invariant_violated = bool(re.search(r"Invariant .* is violated|Temporal properties were violated|"
                                                  r"Action property .* is violated|Assumption .* is false|"
-                                                 r"Postcondition .* violated|The postcondition .* is false|"
+                                                 r"Postcondition .* violated|Postcondition \S+ .* is false|"
                                                  r"POSTCONDITION", out) and not self.ok)
 
     def violated_names(self):
